@@ -93,6 +93,7 @@ PROPS = {
         "units": [
             U("c08", "TestRocksRestart", T(4, 16, 300, shrinktime="60s"), T(6, 80, 900, shrinktime="180s"), needs=["nodeexec"]),
             U("c08", "TestFollowerBounce", T(1, 12, 400, shrinktime="60s"), T(3, 64, 1200, shrinktime="200s"), needs=["nodeexec"]),
+            U("c08", "TestServerStop", T(3, 12, 400, shrinktime="45s"), T(5, 64, 900, shrinktime="150s"), needs=["nodeexec"]),
             U("c08", "TestBPlusRestart", T(25, 8, 300), T(40, 80, 600)),
         ],
     },
